@@ -248,6 +248,8 @@ private:
 
     int DEPTH_OF_EXPRS_;
     int DEPTH_OF_STMTS_;
+    int DEPTH_OF_NESTED_STMTS_;
+    int DEPTH_OF_DECLS_;
 
     struct DepthControl
     {
